@@ -675,6 +675,50 @@ def _copy_propagate(fn):
         if stores.get(r, 0) <= 1 or r in params and stores.get(r, 0) == 0:
             ok_alias[a] = b
     alias = ok_alias
+    fn = R().visit(fn)
+    return _attr_alias_propagate(fn)
+
+
+def _attr_alias_propagate(fn):
+    """local = self.<attr>  (bound once)  ->  uses of the local read self.<attr> directly, provided no code of the
+    module outside __init__/__post_init__ ever stores an attribute of that name (so it cannot change while the alias lives)."""
+    mod = getattr(fn, "module", None)
+    if mod is None:
+        return fn
+    stored = getattr(mod, "_attr_stores", None)
+    if stored is None:
+        stored = set()
+        for q, f in mod.raw_funcs.items():
+            if f.name in ("__init__", "__post_init__"):
+                continue
+            for n in ast.walk(f):
+                if isinstance(n, ast.Attribute) and isinstance(n.ctx, (ast.Store, ast.Del)):
+                    stored.add(n.attr)
+                if isinstance(n, ast.Call) and isinstance(n.func, ast.Name) and n.func.id in ("setattr", "delattr"):
+                    stored.add("*")
+        mod._attr_stores = stored
+    if "*" in stored:
+        return fn
+    stores = {}
+    for n in ast.walk(fn):
+        if isinstance(n, ast.Name) and isinstance(n.ctx, ast.Store):
+            stores[n.id] = stores.get(n.id, 0) + 1
+    params = {a.arg for a in fn.args.args}
+    alias = {}
+    for st in ast.walk(fn):
+        if isinstance(st, ast.Assign) and len(st.targets) == 1 and isinstance(st.targets[0], ast.Name) and isinstance(st.value, ast.Attribute) \
+                and isinstance(st.value.value, ast.Name) and st.value.value.id == "self" and "self" in params and stores.get("self", 0) == 0:
+            a = st.targets[0].id
+            if stores.get(a, 0) == 1 and a not in params and st.value.attr not in stored:
+                alias[a] = st.value
+    if not alias:
+        return fn
+
+    class R(ast.NodeTransformer):
+        def visit_Name(self, n):
+            if isinstance(n.ctx, ast.Load) and n.id in alias:
+                return ast.copy_location(_clone(alias[n.id]), n)
+            return n
     return R().visit(fn)
 
 
